@@ -299,7 +299,11 @@ def binning(case, r):
     for nm, e, lim, glo, ghi, v, fin in (("x", ex, xl, given[0], given[1], x, finx), ("y", ey, yl, given[2], given[3], y, finy)):
         if e is None:
             continue
-        if glo != ghi and np.any(fin) and ((glo and float(np.max(v[fin])) == lim[0]) or (ghi and float(np.min(v[fin])) == lim[1])):
+        lgax = logx if nm == "x" else logy
+        with np.errstate(all="ignore"):
+            tv = np.log10(v[fin]) if lgax else v[fin]            # osyris takes the automatic limit in transformed space
+            tl = (np.log10(lim[0]), np.log10(lim[1])) if lgax else lim
+        if glo != ghi and np.any(fin) and ((glo and float(np.max(tv)) == tl[0]) or (ghi and float(np.min(tv)) == tl[1])):
             # the automatic side coincides with the requested one: a zero-width request, which osyris widens
             r.label("skipped_degenerate_one_sided_range")
             return
